@@ -13,6 +13,16 @@ CLAIMED = {
     note='Trusted: clang-14 front end, ll2c translator (validated against the repository test-suite), CBMC, the abstract model in harness/C15_hist.c, '
          'vasprintf stub; allocation does not fail; values are non-NaN; operation kinds and resize shapes are enumerated, not symbolic.',
     design='DESIGN.md section 4 / C15'),
+ 'C13': dict(
+    technique='bounded symbolic model checking of the real vnaproperty.c with CBMC 6.11 (native C front end, unwinding assertions), abstract-document / sequence / ordered-set oracles, native ASan replay',
+    text='Bounded proof with CBMC over the real vnaproperty.c: (C13.a) from 12 enumerated small trees one operation of every kind (set =v, set #, delete, '
+         'set_subtree, malformed set, calls with trailing tokens) with descriptors of the grammar forms - descriptors are concrete (a single symbolic descriptor byte '
+         'makes symbolic execution of scan/parse/recursive free explode), the scalar value byte is symbolic - after which all observers on 12 paths must agree with an '
+         'abstract document and the tree must delete without leak; (C13.d) the list and map containers one step from 0..8-element pre-states with SYMBOLIC subscript / '
+         'key / add flag against an abstract sequence / ordered-set model with representation invariants.  Memory-safety, leak and unwinding checks are part of every verdict.',
+    note='Trusted: CBMC, the models in harness/C13_step.c and C13_ds.c, libc stubs in support/vf_libc.h (fixed-size strdup/vasprintf, strtol, ctype), typed realloc/memmove/zero '
+         "models for pointer vectors, the library's 'X' poison fill skipped; API-level list histories are outside (they do not finish), lists are covered at container level.",
+    design='DESIGN.md section 4 / C13'),
 }
 
 NOT_APPLICABLE = {}
@@ -27,11 +37,12 @@ m = {
  'hooks': {'guard': 'LIBVNA_VERIF', 'enable': 'none needed: static functions are reached by #include of the real .c file from the harness TU; stubs are supplied at link level',
            'baseline_off_cmd': 'make -C /repo check', 'source_commits': [], 'add_only': True},
  'engines': [
-    {'name': 'll2c+cbmc', 'path': 'vf/ll2c.py', 'serves_properties': sorted(CLAIMED), 'kind_free_text': 'clang-14 -O0 IR -> C translator feeding CBMC 6.11 (bounded symbolic execution, SAT)'},
+    {'name': 'll2c+cbmc', 'path': 'vf/ll2c.py', 'serves_properties': [p for p in sorted(CLAIMED) if p not in ('C13',)], 'kind_free_text': 'clang-14 -O0 IR -> C translator feeding CBMC 6.11 (bounded symbolic execution, SAT)'},
+    {'name': 'cbmc-native', 'path': 'vf/core.py', 'serves_properties': ['C13'], 'kind_free_text': 'CBMC 6.11 C front end directly on the real .c files (complex-free units)'},
  ],
  'checks': [
     {'property_id': pid, 'quick_cmd': './check %s --tier quick' % pid, 'thorough_cmd': './check %s --tier thorough' % pid,
-     'evidence_file': 'evidence/%s.json' % pid, 'replay_cmd_template': './check --replay {path}', 'engine': 'll2c+cbmc',
+     'evidence_file': 'evidence/%s.json' % pid, 'replay_cmd_template': './check --replay {path}', 'engine': 'll2c+cbmc' if pid not in ('C13',) else 'cbmc-native',
      'level_claimed': {'category': 'proof', 'text': c['text'], 'design_ref': c['design']}, 'level_note': c['note'], 'technique': c['technique']}
     for pid, c in sorted(CLAIMED.items())],
  'notes': 'All checks regenerate their encoding from /repo\'s working tree on every run. Exit 0 = held within the stated bounds; exit 1 + VIOLATION line = '
